@@ -411,48 +411,50 @@ theorem matchOne_spec (w : World) (auction : Bool) (o : Ord) (hwf : OrdWF o) : M
   unfold World.matchOne
   rw [if_neg (by simp [hwf.1])]
   split
-  · rename_i wi d hwi hd
-    split
-    · exact matchSpec_triv w o hwf _
-    · rename_i k hk
-      have hacct : acctOfOrd w o = some k := by unfold acctOfOrd; rw [hwi]; exact hk
-      extract_lets b isLong cl w1
-      have hs1 : Same w w1 := apply_Same w k _ (fun a => stepOp_touch a _ _ _)
-      clear_value w1
-      split
-      · rename_i out hout
-        exact matchSpec_nofill w w o hwf (Same.refl w) out (matchPre_inl _ _ _ _ _ _ _ hout) _
-      · rename_i f price hpre
-        have hu : 0 < o.unfilled := by unfold Ord.unfilled; have := hwf.2.2; omega
-        obtain ⟨hf0, hfu⟩ := matchPre_inr _ _ _ _ _ _ _ _ hpre hu
-        extract_lets ct
-        have hs2 := tradeFee_Same w1 wi (some o.id) o.isBuy o.effect f price ct
-        split
-        rename_i fee w2 hfee
-        rw [hfee] at hs2
-        have hs12 : Same w w2 := hs1.trans hs2
-        extract_lets cash out
-        have hout : out = .raises ∨ out = .rejected ∨ out = .fill f price ct (!o.isLimit && o.unfilled - f ≠ 0) :=
-          matchPost_cases (w2.mcfg wi) wi.cfg o f price (cash + o.initFrozen) fee ct
-        clear_value out cash
-        rcases hout with h | h | h
-        · rw [h]
-          exact matchSpec_nofill w w2 o hwf hs12 _ (by simp) _
-        · rw [h]
-          exact matchSpec_nofill w w2 o hwf hs12 _ (by simp) _
-        · rw [h]
-          dsimp only
-          obtain ⟨h1, h2, h3, h4⟩ := fill_spec o hwf price f fee (!o.isLimit && decide (o.unfilled - f ≠ 0)) hf0 hfu
-          have hs3 := hs12.trans (addTurnover_Same w2 o.ins f)
-          have hd := hs3.1.trans (apply_delta (w2.addTurnover o.ins f) k
-            (.trade o.ins wi.cfg cl isLong { price := price, qty := f, effect := o.effect, fee := fee } (some (o.qty, o.initFrozen))) _
-            (fun a => stepOp_trade_some a _ _ _ _ _ _ _))
-          refine ⟨?_, ?_, h1, h2, h3, hd.congr (fun j => ?_)⟩
-          · rw [apply_open]; exact hs3.2.1
-          · rw [apply_auction]; exact hs3.2.2
-          · rw [resK_of_acct w j k _ (by unfold acctOfOrd; rw [h1]; exact hacct), resK_of_acct w j k o hacct, h4]
-            split <;> simp
   · exact matchSpec_triv w o hwf _
+  · split
+    · rename_i wi d hwi hd
+      split
+      · exact matchSpec_triv w o hwf _
+      · rename_i k hk
+        have hacct : acctOfOrd w o = some k := by unfold acctOfOrd; rw [hwi]; exact hk
+        extract_lets b isLong cl w1
+        have hs1 : Same w w1 := apply_Same w k _ (fun a => stepOp_touch a _ _ _)
+        clear_value w1
+        split
+        · rename_i out hout
+          exact matchSpec_nofill w w o hwf (Same.refl w) out (matchPre_inl _ _ _ _ _ _ _ hout) _
+        · rename_i f price hpre
+          have hu : 0 < o.unfilled := by unfold Ord.unfilled; have := hwf.2.2; omega
+          obtain ⟨hf0, hfu⟩ := matchPre_inr _ _ _ _ _ _ _ _ hpre hu
+          extract_lets ct
+          have hs2 := tradeFee_Same w1 wi (some o.id) o.isBuy o.effect f price ct
+          split
+          rename_i fee w2 hfee
+          rw [hfee] at hs2
+          have hs12 : Same w w2 := hs1.trans hs2
+          extract_lets cash out
+          have hout : out = .raises ∨ out = .rejected ∨ out = .fill f price ct (!o.isLimit && o.unfilled - f ≠ 0) :=
+            matchPost_cases (w2.mcfg wi) wi.cfg o f price (cash + o.initFrozen) fee ct
+          clear_value out cash
+          rcases hout with h | h | h
+          · rw [h]
+            exact matchSpec_nofill w w2 o hwf hs12 _ (by simp) _
+          · rw [h]
+            exact matchSpec_nofill w w2 o hwf hs12 _ (by simp) _
+          · rw [h]
+            dsimp only
+            obtain ⟨h1, h2, h3, h4⟩ := fill_spec o hwf price f fee (!o.isLimit && decide (o.unfilled - f ≠ 0)) hf0 hfu
+            have hs3 := hs12.trans (addTurnover_Same w2 o.ins f)
+            have hd := hs3.1.trans (apply_delta (w2.addTurnover o.ins f) k
+              (.trade o.ins wi.cfg cl isLong { price := price, qty := f, effect := o.effect, fee := fee } (some (o.qty, o.initFrozen))) _
+              (fun a => stepOp_trade_some a _ _ _ _ _ _ _))
+            refine ⟨?_, ?_, h1, h2, h3, hd.congr (fun j => ?_)⟩
+            · rw [apply_open]; exact hs3.2.1
+            · rw [apply_auction]; exact hs3.2.2
+            · rw [resK_of_acct w j k _ (by unfold acctOfOrd; rw [h1]; exact hacct), resK_of_acct w j k o hacct, h4]
+              split <;> simp
+    · exact matchSpec_triv w o hwf _
 
 /-! ### a matching round -/
 
@@ -910,7 +912,7 @@ def ceSw : Switches := { position := true, price := true, isTrading := true, cas
 def ceCfg : WCfg :=
   { instruments := [ceIns], priceLimit := true, inactiveLimit := true, volumeLimit := true, volumePercent := 1,
     slipKind := 0, slipRate := 0, stockCost := { rate := 0, mult := 1, minC := 0, taxRate := 0, taxMult := 1 },
-    swStock := ceSw, swFut := ceSw, tplusOn := true, reinvest := false, forced := false, matchImmediately := false }
+    swStock := ceSw, swFut := ceSw, tplusOn := true, reinvest := false, forced := false, matchImmediately := false, daily := false }
 def ceOrd : Ord :=
   { id := 7, ins := 1, isBuy := true, isLimit := true, limitPrice := 1, effect := .open_, qty := 100, filled := 0,
     status := .active, avg := 0, cost := 0, frozenPrice := 1, initFrozen := 1 }
